@@ -140,24 +140,27 @@ def dumpIndex (ends : List Int) (period : Int) (t : Int) : Int :=
 
 /-- first half of `sensor_to_categorical` after the dump index of every event is known
     (`events0`): shift of the last prior event to dump 0, cut to the events before the end of the
-    last dump, transform.  Returns the remaining (values, dump indices). -/
+    last dump, transform.  Returns the remaining (values, dump indices) and the flag
+    `has_prior_event` (an event lies before the first dump). -/
 def s2cCutEv (events0 : List Int) (vals : List V) (numDumps : Nat) (tr : Option (V → V)) :
-    List V × List Nat :=
-  -- first_proper_event = events.searchsorted(-1, side='right'); shift final prior event to dump 0
+    List V × List Nat × Bool :=
+  -- first_proper_event = events.searchsorted(-1, side='right')
   let fp0 := searchsortedRight events0 (-1)
-  let fp := if fp0 > 0 then fp0 - 1 else fp0
-  let events1 := if fp0 > 0 then events0.set fp 0 else events0
+  -- has_prior_event = first_proper_event > 0; shift final prior event to dump 0
+  let hasPrior : Bool := decide (fp0 > 0)
+  let fp := if hasPrior then fp0 - 1 else fp0
+  let events1 := if hasPrior then events0.set fp 0 else events0
   let opl := searchsortedLeft events1 (numDumps : Int)
   let vals1 := pySlice vals fp opl
   let events2 := (pySlice events1 fp opl).map Int.toNat
   let vals2 := match tr with
     | some f => vals1.map f
     | none => vals1
-  (vals2, events2)
+  (vals2, events2, hasPrior)
 
 /-- `events = dump_endtimes.searchsorted(sensor_timestamps) - 1`, then `s2cCutEv` -/
 def s2cCut (ts : List Int) (vals : List V) (ends : List Int) (period : Int) (tr : Option (V → V)) :
-    List V × List Nat :=
+    List V × List Nat × Bool :=
   s2cCutEv (ts.map (dumpIndex ends period)) vals ends.length tr
 
 /-- last part of `sensor_to_categorical`: force the first event to dump 0, greedy clean-up via
@@ -174,18 +177,20 @@ def s2cClean (numDumps : Nat) (vals3 : List V) (events3 : List Nat) (greedyVals 
   let pairs := if allowRepeats then pairs else keepChanges none pairs
   pure (Cat.new (pairs.map (·.1)) (pairs.map (·.2) ++ [numDumps]))
 
-/-- second half of `sensor_to_categorical`: initial value, then `s2cClean` -/
-def s2cFinish (numDumps : Nat) (vals2 : List V) (events2 : List Nat) (init : Option V)
-    (greedyVals : List V) (allowRepeats : Bool) : Except Err (Cat V) :=
-  -- if events[0] != 0 and initial_value is not None   (IndexError on an empty array)
-  match events2 with
+/-- second half of `sensor_to_categorical`: the initial value is inserted at dump 0 whenever no
+    event precedes the first dump (`has_prior_event` false) and an initial value is given; then
+    `events[0] = 0` (IndexError on an empty array: no event before the end of the last dump and no
+    initial value), then `s2cClean` -/
+def s2cFinish (numDumps : Nat) (vals2 : List V) (events2 : List Nat) (hasPrior : Bool)
+    (init : Option V) (greedyVals : List V) (allowRepeats : Bool) : Except Err (Cat V) :=
+  -- if not has_prior_event and initial_value is not None
+  let ve : List V × List Nat := match hasPrior, init with
+    | false, some iv => (iv :: vals2, 0 :: events2)
+    | _, _ => (vals2, events2)
+  -- events[0] = 0   (IndexError on an empty array)
+  match ve.2 with
   | [] => throw Err.index
-  | e0 :: _ =>
-    match init with
-    | some iv =>
-      if e0 ≠ 0 then s2cClean numDumps (iv :: vals2) (0 :: events2) greedyVals allowRepeats
-      else s2cClean numDumps vals2 events2 greedyVals allowRepeats
-    | none => s2cClean numDumps vals2 events2 greedyVals allowRepeats
+  | _ :: _ => s2cClean numDumps ve.1 ve.2 greedyVals allowRepeats
 
 /-- **Mirror of `sensor_to_categorical`.**  `ends` = `dump_midtimes + 0.5 * dump_period`,
     `tr` = transform (`none` = no transform), `greedyVals` = `greedy_values`. -/
@@ -195,7 +200,7 @@ def sensorToCategorical (ts : List Int) (vals : List V) (ends : List Int) (perio
   -- dump_endtimes[0] - dump_period
   if ends = [] then throw Err.index else
   let cut := s2cCut ts vals ends period tr
-  s2cFinish ends.length cut.1 cut.2 init greedyVals allowRepeats
+  s2cFinish ends.length cut.1 cut.2.1 cut.2.2 init greedyVals allowRepeats
 
 /-! ### Spec: the documented rule -/
 
